@@ -53,6 +53,16 @@ Check C17_tiles_concat :
   forall (K : Type) input (toks : list (K * N * N)),
     tiles toks (N.of_nat (length input)) ->
     concat (map (fun t => slice input (snd (fst t)) (snd t)) toks) = input.
+Check C17_sink_lossless :
+  forall (T : Type) (lx : list (bool * T)) (evs : list event),
+    wf_events 0 false evs = true -> count_tokens evs = count_nontrivia lx ->
+    sink lx evs = Some lx.
+Check C17_loc_fixed_general :
+  forall file offs i o,
+    (forall o', In o' offs -> exists k, (k <= length file)%nat /\ o' = blen (firstn k file)) ->
+    nth_error offs i = Some o ->
+    core (nth i (offset_to_location Fixed file offs) zero_loc) =
+    (o, spec_line (encode file) o, spec_col (encode file) o + 1, spec_line_start (encode file) o).
 
 (** definitions pinned by value: the Rust unit test of location.rs, the design-round
     observation, UTF-8 *)
@@ -63,3 +73,6 @@ Check eq_refl : enc 128512 = [240; 159; 152; 128].
 Check eq_refl : enc 8364 = [226; 130; 172].
 Check eq_refl : (spec_line [195;169;10;97] 3, spec_col [195;169;10;97] 3, spec_col [195;169;10;97] 2) = (2, 1, 2).
 Check eq_refl : print_loc (mkloc 11 2 2 11 16) zero_loc = (2, 0, Some (Some 2, 0)).
+Check eq_refl : map core (offset_to_location Fixed [233; 233; 10; 97; 98] [5; 7; 5]) = [(5, 2, 2, 5); (7, 2, 4, 5); (5, 2, 2, 5)].
+Check eq_refl : sink [(true, 0); (false, 1); (true, 2)] [EStart 1; EToken; EFinish 1] = Some [(true, 0); (false, 1); (true, 2)].
+Check eq_refl : sink [(true, 0); (false, 1); (true, 2)] [EStart 1; EToken; EToken; EFinish 1] = None.
